@@ -131,7 +131,7 @@ fn play(cfg: &WorldCfg, next: &mut dyn FnMut(&FactoryWorld, usize) -> Option<Cre
             let code = if third { fw.w.codes.pair_alt } else { code };
             if third {
                 let (f, c) = (fw.w.factory.to_string(), fw.w.codes.factory);
-                let rf = fw.w.exec(Step { sender: fw.w.owner.to_string(), call: Call::Migrate { contract: f, code_id: c }, funds: vec![] });
+                let rf = fw.w.exec(Step { sender: fw.w.factory_admin.to_string(), call: Call::Migrate { contract: f, code_id: c }, funds: vec![] });
                 if rf.outcome.is_ok() {
                     classes.push("adm:factory-migrated");
                 }
@@ -334,5 +334,5 @@ pub fn suites() -> Vec<Suite> {
     }]
 }
 
-pub const RULE: &str = "case = factory world (3-8 native denoms drawn from a 17-name pool with heavy prefix sharing (three names with upper-case letters), in 3/4 of the worlds containing the four splits of one concatenation 'abc|defg' = 'abcd|efg' = 'ab|cdefg' = 'abcde|fg'; 1/6 of the denoms unregistered; 0-3 cw20 tokens; a user address, the factory and a non-existent address posing as tokens) + history of <= 30 CreatePair calls (fresh sets, duplicates in either order, identical assets, invalid assets, non-owner sender; interleaved re-registrations of a registered denom's decimals and migrations of registered pairs by the owner; commission absent / in [0,1] / 1 / above 1; whitelist and minimum settings; valid and invalid LP token metadata); after every successful creation every unordered pair of valid assets, and at the end also invalid ones, is looked up in both orders: created sets must resolve to their own pair with a record equal to the pair's self-description and to the creation arguments and true decimals, never-created sets must resolve to nothing, distinct sets never share a pair; refused creations must leave the chain byte-identical; non-trivial = >= 3 successful creations including two sets that share a denom prefix; distinct = hash of the tape";
+pub const RULE: &str = "case = factory world (3-8 native denoms drawn from a 17-name pool with heavy prefix sharing (three names with upper-case letters), in 3/4 of the worlds containing the four splits of one concatenation 'abc|defg' = 'abcd|efg' = 'ab|cdefg' = 'abcde|fg'; 1/6 of the denoms unregistered; 0-3 cw20 tokens; a user address, the factory, a non-existent address and a contract whose TokenInfo answer has no `decimals` member posing as tokens; live tokens are sometimes named by the upper-case spelling of their address) + history of <= 30 CreatePair calls (fresh sets, duplicates in either order, identical assets, invalid assets, non-owner sender; interleaved re-registrations of a registered denom's decimals and migrations of registered pairs by the owner; commission absent / in [0,1] / 1 / above 1; whitelist and minimum settings; valid and invalid LP token metadata); after every successful creation every unordered pair of valid assets, and at the end also invalid ones, is looked up in both orders: created sets must resolve to their own pair with a record equal to the pair's self-description and to the creation arguments and true decimals, never-created sets must resolve to nothing, distinct sets never share a pair; refused creations must leave the chain byte-identical; non-trivial = >= 3 successful creations including two sets that share a denom prefix; distinct = hash of the tape";
 pub const ASSUMPTIONS: &[&str] = &["cw-multi-test chain model (MockApi canonical addresses are fixed-length)", "'creation succeeds only if ...' is asserted as stated (only-if); that a valid fresh set CAN be created is observed through the aliasing checks, not demanded"];
